@@ -17,9 +17,14 @@ const (
 	// (a member that claims nothing is only enumerated as current: its
 	// generation is unobservable).
 	PriorFull
+	// PriorConflict: nobody | one member | two conflicting members, all
+	// members on the current generation.
+	PriorConflict
 )
 
-func (m PriorMode) String() string { return [...]string{"none", "single-current", "full"}[m] }
+func (m PriorMode) String() string {
+	return [...]string{"none", "single-current", "full", "conflict-current"}[m]
+}
 
 type Block struct {
 	Sweep  string
@@ -42,7 +47,7 @@ func ownerCodes(n int, mode PriorMode) [][]int {
 	for i := 0; i < n; i++ {
 		codes = append(codes, []int{i})
 	}
-	if mode == PriorFull {
+	if mode == PriorFull || mode == PriorConflict {
 		for i := 0; i < n; i++ {
 			for j := i + 1; j < n; j++ {
 				codes = append(codes, []int{i, j})
